@@ -564,6 +564,18 @@ class Req:
             ok_vec = pe[0] == "call" and pe[1].endswith("coef_helper") and item_of(pe[2][0]) is not None and has_w(pe[2][1])
             lp = self.push_loops_bounded_by([IN.key], ("get_num_winternitz_chains", "get_hash_chain_count", "hash_chain_count"))
             ok_vec = ok_vec and lp[0]
+        elif not pushes:
+            # the same table built as `(0..p).map(|i| coef_helper(i, w)).collect()`
+            from .c03 import item_of
+            cls = [self.F.fns[c] for c in self.F._closures.get(IN.path, []) if c in self.F.fns]
+            colls = [t for b, t in IN.calls() if core.strip_generics(core.callee_path(t) or "").endswith("Iterator::collect") and not IN.blocks[b]["cleanup"]]
+            if len(cls) == 1 and len(colls) == 1:
+                cx = expr.Expr(self.F, cls[0], closure_env=True)
+                pe = cx.of_local(0, 0)
+                src = self.closure_item_source(cls[0])
+                rng = [x for x in expr.walk(src) if x[0] == "adt" and x[1] == "core::ops::range::Range"] if src is not None else []
+                bounded = bool(rng) and rng[0][3][0] == ("const", 0) and (expr.has_field(rng[0][3][1], "hash_chain_count") or expr.has_call(rng[0][3][1], "get_num_winternitz_chains") or expr.has_call(rng[0][3][1], "get_hash_chain_count"))
+                ok_vec = pe[0] == "call" and pe[1].endswith("coef_helper") and item_of(pe[2][0]) is not None and has_w(pe[2][1]) and bounded
         return (ok_max and ok_sum and ok_vec, "%s returns (8n/w: %s, (8n/w)*(2^w-1): %s, [coef_helper(i, w) for i in 0..p]: %s)" % (IN.path, ok_max, ok_sum, ok_vec))
 
     def r_fv_helper_matches_table(self):
